@@ -18,6 +18,11 @@ package types
 //@   ensures pow_is_a_call: typeof(node) == *dsl.BinaryExpression && node.(*dsl.BinaryExpression) != nil && node.(*dsl.BinaryExpression).Operator == dsl.BinaryOpPow ==> emittedHere("std::pow(") == 1 && emittedHere(", ") == 1 && emittedHere(")") == 1
 //@   ensures operator_tokens: typeof(node) == *dsl.BinaryExpression && node.(*dsl.BinaryExpression) != nil ==> (node.(*dsl.BinaryExpression).Operator == dsl.BinaryOpAdd ==> emittedHere("+") == 1) && (node.(*dsl.BinaryExpression).Operator == dsl.BinaryOpSub ==> emittedHere("-") == 1) && (node.(*dsl.BinaryExpression).Operator == dsl.BinaryOpMul ==> emittedHere("*") == 1) && (node.(*dsl.BinaryExpression).Operator == dsl.BinaryOpDiv ==> emittedHere("/") == 1)
 
+// A conversion the type checker inserted is a conversion in every target: C++ casts to the C++ type of the target type
+// (the operand is evaluated in its own type first); a negated operand keeps its own parentheses.
+//@   ensures every_conversion_is_a_static_cast_to_the_target_type: typeof(node) == *dsl.TypeConversionExpression && node.(*dsl.TypeConversionExpression) != nil ==> emittedHere("static_cast<%s>(") == 1 && emittedArg("static_cast<%s>(", 0, 0, string) == old(common.TypeSyntax(node.(*dsl.TypeConversionExpression).Type)) && emittedHere(")") == 1
+//@   ensures a_negated_operand_is_parenthesised: typeof(node) == *dsl.UnaryExpression && node.(*dsl.UnaryExpression) != nil && node.(*dsl.UnaryExpression).Operator == dsl.UnaryOpNegate ==> emittedHere("-(") == 1 && emittedHere(")") == 1
+
 // C01/C14: the C++ serializers take the integer encoding of an enum or flags value from the underlying type of the
 // generated C++ type (std::underlying_type_t / value_type). That type must therefore be the C++ type of the base
 // type the model declares - aliases included, which common.TypeSyntax resolves like every other generator does -
